@@ -237,7 +237,8 @@ prop("C17", "slcheck",
 prop("C04", "slcheck",
      [dict(name="TestC04A", quick=20000, thorough=40000, env=G1),
       dict(name="TestC04B", pkg="conccheck", quick=3000, thorough=4000, env={"GOMAXPROCS": "2"}),
-      dict(name="TestC04Seq", pkg="nitrocheck", quick=300, thorough=3000, steps=50)],
+      dict(name="TestC04Seq", pkg="nitrocheck", quick=300, thorough=3000, steps=50),
+      dict(name="TestC04Equal", quick=30000, thorough=60000, env=G1)],
      rule="Layer A (skiplist + access barrier + guard allocator in trap mode, fully controlled): 2-4 threads play writer (Insert2 with drawn heights; delete = lookup + "
           "DeleteNode2 + FlushSession-on-success under one token; 1-3 contended keys), collector (unlink a chained list of nodes, then flush the list) and reader (iterator "
           "with refresh interval 0-3, Seek, Pause/Resume); schedule drawn. Oracle: no access to a freed block (page fault mapped to the block and its alloc/free ops), no "
@@ -248,7 +249,8 @@ prop("C04", "slcheck",
           "(refresh rate 0-2) whose scans must equal the snapshot content; snapshots retired in drawn order between rounds; oracle: no fault, scans exact, linearizable "
           "rounds, no bad free at any point, allocator empty after Close. Non-trivial there: blocks were freed before Close with pre-emptions and overlapping operations "
           "or concurrent reader scans. TestC04Seq: the sequential engine of C07 with the allocator always in trap mode and, in a third of the cases, the "
-          "application keeping live nodes in a nitro.NodeList (removed from it before they are deleted): no fault, no bad free, nothing unlinked left unfreed at idle.",
+          "application keeping live nodes in a nitro.NodeList (removed from it before they are deleted): no fault, no bad free, nothing unlinked left unfreed at idle. TestC04Equal: 2-3 controlled threads delete and re-insert (heights 1-4) the same one or two keys, trap mode, "
+          "layer A's oracle plus linearizability; concentrates schedules on a marked node meeting its re-inserted twin.",
      technique="generated roles + schedules under a controlled scheduler with a guard allocator (page-fault / live-set oracle)",
      design_ref="DESIGN.md §3 C04",
      level_text="Schedule-as-input exploration with an allocator that turns every stale access into an attributable fault and every bad free into a record.",
